@@ -400,6 +400,28 @@ func (a *Adv) ContractProbes() int {
 			fc.MissedHostValue = cur.MissedHostValue.Add(one)
 			return true
 		})
+		// value moved from the host's valid output to the renter's (sum unchanged) until the host's valid output is
+		// below the missed host value: the expiry path would pay more than the contract holds. Refused from
+		// EphemeralOutputHeight on (below it the rule does not exist and the revision is legacy-valid).
+		if a.Child >= a.G.C.Net.HardforkV2.EphemeralOutputHeight {
+			mk("host-output-below-missed-host-value", func(fc *types.V2FileContract) bool {
+				if fc.MissedHostValue.IsZero() || fc.HostOutput.Value.Cmp(fc.MissedHostValue) < 0 {
+					return false
+				}
+				delta := fc.HostOutput.Value.Sub(fc.MissedHostValue).Add(one)
+				fc.HostOutput.Value = fc.HostOutput.Value.Sub(delta)
+				fc.RenterOutput.Value = fc.RenterOutput.Value.Add(delta)
+				return true
+			})
+			mk("missed-host-value-kept-host-output-emptied", func(fc *types.V2FileContract) bool {
+				if fc.MissedHostValue.IsZero() || fc.HostOutput.Value.IsZero() {
+					return false
+				}
+				fc.RenterOutput.Value = fc.RenterOutput.Value.Add(fc.HostOutput.Value)
+				fc.HostOutput.Value = types.ZeroCurrency
+				return true
+			})
+		}
 		mk("total-collateral+1", func(fc *types.V2FileContract) bool { fc.TotalCollateral = fc.TotalCollateral.Add(one); return true })
 		mk("total-collateral-1", func(fc *types.V2FileContract) bool {
 			if fc.TotalCollateral.IsZero() {
